@@ -472,7 +472,9 @@ func (g *gen) propfindBody() (body []byte, ctype string) {
 		return pfx + ":" + local
 	}
 	hdr := rt.Pick(g.r, []string{`<?xml version="1.0" encoding="utf-8"?>`, `<?xml version="1.0"?>` + "\n", ""})
-	ctype = rt.Pick(g.r, []string{"application/xml", "text/xml", `application/xml; charset="utf-8"`, `text/xml; charset=utf-8`})
+	ctype = rt.Pick(g.r, []string{"application/xml", "text/xml", `application/xml; charset="utf-8"`, `text/xml; charset=utf-8`,
+		// media types and parameter names are case-insensitive, blanks around ';' are allowed
+		"Application/XML", "text/XML; charset=UTF-8", "APPLICATION/XML", `application/xml ; Charset="utf-8"`, "text/xml;charset=utf-8"})
 	switch g.r.Weighted([]int{30, 14, 14, 30, 4, 4, 4}) {
 	case 0:
 		return nil, ""
